@@ -610,3 +610,45 @@ def r10j(ctx):
             ctx.ok(cid, ds.module.loc(comp), "each per-input task hands its input position to the store")
         else:
             ctx.bad(cid, ds.module.loc(comp), "the per-input tasks append their pieces to one shared store keyed by the output partition only (the input position never reaches _shuffle_group): collect() returns the pieces of an output partition in the order the tasks ran, not in input order - with shuffle_method='disk' groupby first/last(split_out=2), groupby ffill/bfill and drop_duplicates(keep=...) see permuted rows and can differ from run to run")
+
+
+# ---------------------------------------------------------------------------------------------
+# R10k
+# ---------------------------------------------------------------------------------------------
+
+
+@rule(
+    "R10k",
+    ["C10", "C06", "C11"],
+    """THE LOGICAL JOIN REPORTS THE PARTITIONS ITS LOWERING PRODUCES: Merge._lower returns a BlockwiseMerge as soon as
+    `_is_single_partition_broadcast` holds - the result then has the partitions of the larger side. Merge._divisions must not answer
+    with the merged union of both sides' divisions on that path: every return whose value derives from `merge_sorted(...)` /
+    `unique(...)` of the two division tuples needs `_is_single_partition_broadcast` ruled out on the way (a negated guard or an
+    earlier return under it). l.join(<one-partition r>) reported 5 partitions and computed 3; tail() raised IndexError.""",
+)
+def r10k(ctx):
+    model = ctx.model
+    c = model.cls("Merge", "_merge")
+    lw = model.method(c, "_lower", own=True).node
+    first_branch = next((i_ for i_ in lw.body if isinstance(i_, ast.If)), None)
+    if first_branch is None or "_is_single_partition_broadcast" not in ast.unparse(first_branch.test):
+        ctx.unclassified("_merge.Merge._lower:precedence", c.module.loc(lw), "the single-partition broadcast is no longer the first decision of Merge._lower")
+        return
+    fn = model.method(c, "_divisions", own=True).node
+    defs = flow.Defs(fn)
+    n = 0
+    for p in flow.returns(fn):
+        v = p.stmt.value
+        if v is None:
+            continue
+        chain = ast.unparse(v) + " " + " ".join(ast.unparse(d.value) for nm in names_in(v) for d in defs.reaching(nm, p.stmt) if d.value is not None)
+        if "merge_sorted(" not in chain:
+            continue
+        n += 1
+        ruled_out = any("_is_single_partition_broadcast" in ast.unparse(g) for g, pol in p.guards if not pol)
+        cid = f"_merge.Merge._divisions:merged-divisions#{n}"
+        if ruled_out:
+            ctx.ok(cid, c.module.loc(p.stmt), "the single-partition broadcast is answered before the merged divisions")
+        else:
+            ctx.bad(cid, c.module.loc(p.stmt), f"`{unparse(p.stmt)}` answers with the merged divisions of both sides although Merge._lower takes the single-partition broadcast first (BlockwiseMerge keeps the partitions of the larger side): the logical node reports partitions that are never computed - tail(), partitions[-1], head(npartitions=-1) index past the end")
+    ctx.floor("merged-division returns of Merge._divisions", n, 1)
